@@ -170,11 +170,11 @@ def main(tier, seed, replay=None):
         rep.notes['short_strings'] = len(texts)
         themes = gen.run_themes(['lit', 'slash', 'stmt', 'asi'], tier, rep,
                                 jobs=8)
-        r, deep = gen.simulate(2000 if tier == 'quick' else 30000,
+        r, deep = gen.simulate(2000 if tier == 'quick' else 10000,
                                maxtok=30, maxnl=2, seed=seed + 3, workers=8)
         rep.add_tlc(r)
         prog = deep + [s for n in themes for s in themes[n]
-                       if hash(s.key()) % (6 if tier == 'quick' else 1) == 0]
+                       if hash(s.key()) % (6 if tier == 'quick' else 3) == 0]
         for s in prog:
             texts.append(concretise(s, seed=rng.randrange(1000), pools='rich',
                                     gaps=layout_variant(s, rng)))
